@@ -1,6 +1,8 @@
 package scen
 
 import (
+	"net"
+	"strings"
 	"context"
 	"errors"
 	"fmt"
@@ -28,6 +30,7 @@ type Side struct {
 	ReadAt   []time.Duration
 	ReadErr  error
 	ReadEnd  bool
+	SoftErrs []error
 	readerOn bool
 	readerWG sync.WaitGroup
 	net      *vnet.Net
@@ -132,7 +135,9 @@ func (s *Side) StartReader() {
 			n, err := s.Conn.Read(buf)
 			s.mu.Lock()
 			if err != nil {
-				if isTemporary(err) {
+				if !isTerminal(err) && len(s.SoftErrs) < 64 {
+					// an error surfaced through Read while the connection stays usable
+					s.SoftErrs = append(s.SoftErrs, err)
 					s.mu.Unlock()
 
 					continue
@@ -147,6 +152,28 @@ func (s *Side) StartReader() {
 			s.mu.Unlock()
 		}
 	}()
+}
+
+func isTerminal(err error) bool {
+	if errors.Is(err, io.EOF) || errors.Is(err, net.ErrClosed) || errors.Is(err, dtls.ErrConnClosed) ||
+		errors.Is(err, context.Canceled) || errors.Is(err, context.DeadlineExceeded) {
+		return true
+	}
+	var to interface{ Timeout() bool }
+	if errors.As(err, &to) && to.Timeout() {
+		return true
+	}
+	s := err.Error()
+
+	return strings.Contains(s, "closed") || strings.Contains(s, "handshake failed") || strings.Contains(s, "alert: Alert Fatal")
+}
+
+// SoftErrors returns the non-terminal errors Read has surfaced so far.
+func (s *Side) SoftErrors() []error {
+	s.mu.Lock()
+	defer s.mu.Unlock()
+
+	return append([]error(nil), s.SoftErrs...)
 }
 
 func isTemporary(err error) bool {
